@@ -171,10 +171,10 @@ Qed.
 Require Import Verif.Proofs.C10.
 
 (* hence the chain theorem has instances without any premise left *)
-Lemma chain_refines_spec_instance : forall o l,
+Lemma chain_refines_spec_instance : forall o l, chain_ok sat_O o l ->
   Forall2 ok_at (run_chain sat_O o None l) (spec_chain sat_O o None true l).
 Proof.
-  intros o l. apply chain_refines_spec; try exact Logic.I.
+  intros o l Hok. apply chain_refines_spec; try exact Logic.I; try exact Hok.
   - intros x. reflexivity.
   - intros p. cbn [deser ser sat_O].
     pose proof (dec_enc p (length (enc p)) [] (le_n _)) as E. rewrite app_nil_r in E. rewrite E. reflexivity.
